@@ -8,7 +8,7 @@ COQ = os.path.join(VERIF, 'coq')
 BUILD = os.path.join(VERIF, 'build')
 MODELRUN = os.path.join(BUILD, 'modelrun')
 NUM_PROPS = ('C05', 'C06', 'C16', 'C17', 'C18', 'C19', 'C20')
-GEN_PROPS = ('C15', 'C01', 'C08')
+GEN_PROPS = ('C15', 'C01', 'C08', 'C12')
 GATE_RE = re.compile(r'\b(Admitted|admit|Axiom|Axioms|Parameter|Parameters|Conjecture|Hypothesis|Variable)\b|Unset\s+Guard|bypass_check|type-in-type|impredicative-set|Admit\s+Obligations')
 
 
@@ -39,6 +39,7 @@ TRANSLATIONS = {
     'domain': ('py2gallina_list.py', 'src/mbi/domain.py', 'Domain_gen.v', ['domain']),
     'budget': ('py2gallina_budget.py', 'mechanisms', 'Budget_gen.v', []),
     'bp': ('py2gallina_bp.py', 'src/mbi/graphical_model.py', 'BP_gen.v', []),
+    'mp': ('py2gallina_mp.py', 'src/mbi/junction_tree.py', 'MpOrder_gen.v', []),
 }
 
 
